@@ -68,8 +68,11 @@ def _int_syms(P, n, prefix="r", base=10, width=4):
     return [(P.int(f"{prefix}_lo{i}", ph=base + 10 * i), P.int(f"{prefix}_hi{i}", ph=base + 10 * i + width)) for i in range(n)]
 
 
-def _wf(P, n, prefix="r", nonneg=True):
-    """listed intervals are well-formed, non-negative and pairwise disjoint"""
+def _wf(P, n, prefix="r", nonneg=True, disjoint=True):
+    """listed intervals are well-formed, non-negative and pairwise disjoint - or, for the rules whose meaning does not
+    depend on it (unavailability = no work in any listed interval, one workload bound per interval), merely pairwise
+    different: nested and overlapping intervals are legitimate input there (two identical entries are rejected at
+    creation)"""
     out = []
     ints = _ints(P, n, prefix)
     for lo, hi in ints:
@@ -77,7 +80,7 @@ def _wf(P, n, prefix="r", nonneg=True):
         if nonneg:
             out.append(lo >= 0)
     for (l1, h1), (l2, h2) in itertools.combinations(ints, 2):
-        out.append(Or(h1 < l2, h2 < l1))
+        out.append(Or(h1 < l2, h2 < l1) if disjoint else Or(l1 != l2, h1 != h2))
     return out
 
 
@@ -94,7 +97,7 @@ def _unav_must(P, busy, tis, nints=1, **kw):
 
 
 RELEMENTS["ResourceUnavailable"] = RElement("ResourceUnavailable", _unav_build, _unav_must,
-                                            [dict(nints=1), dict(nints=2)], assume=lambda P, nints=1, **kw: _wf(P, nints))
+                                            [dict(nints=1), dict(nints=2), dict(nints=3)], assume=lambda P, nints=1, **kw: _wf(P, nints, disjoint=False))
 
 
 # --- ResourcePeriodicallyUnavailable -------------------------------------------------------------
@@ -167,7 +170,7 @@ def _wl_must(P, busy, tis, kind="max", nints=1, **kw):
 
 RELEMENTS["WorkLoad"] = RElement("WorkLoad", _wl_build, _wl_must,
                                  [dict(kind=k, nints=1) for k in ("max", "min", "exact")] + [dict(kind="max", nints=2)],
-                                 assume=lambda P, nints=1, **kw: _wf(P, nints))
+                                 assume=lambda P, nints=1, **kw: _wf(P, nints, disjoint=False))
 
 
 # --- ResourceTasksDistance / ResourceNonDelay ----------------------------------------------------
